@@ -141,6 +141,9 @@ func (ct *Ciphertext[E, S]) UnmarshalCBOR(data []byte) error {
 	if err != nil {
 		return errs.Wrap(err).WithMessage("could not unmarshal ciphertext")
 	}
+	if dto == nil {
+		return errs.Wrap(serde.ErrNull).WithMessage("could not unmarshal ciphertext")
+	}
 	if dto.V == nil {
 		return encryption.ErrIsNil.WithMessage("ciphertext component V is nil")
 	}
@@ -207,6 +210,9 @@ func (n *Nonce[S]) UnmarshalCBOR(data []byte) error {
 	if err != nil {
 		return errs.Wrap(err).WithMessage("could not unmarshal nonce")
 	}
+	if dto == nil {
+		return errs.Wrap(serde.ErrNull).WithMessage("could not unmarshal nonce")
+	}
 	nn, err := NewNonce(dto.V)
 	if err != nil {
 		return errs.Wrap(err).WithMessage("could not create nonce from unmarshaled value")
@@ -270,6 +276,9 @@ func (p *Plaintext[E, S]) UnmarshalCBOR(data []byte) error {
 	dto, err := serde.UnmarshalCBOR[*plaintextDTO[E, S]](data)
 	if err != nil {
 		return errs.Wrap(err).WithMessage("could not unmarshal plaintext")
+	}
+	if dto == nil {
+		return errs.Wrap(serde.ErrNull).WithMessage("could not unmarshal plaintext")
 	}
 	pp, err := NewPlaintext(dto.V)
 	if err != nil {
